@@ -2,6 +2,7 @@ import DracoProofs.Tagged
 import DracoProofs.SymbolComplete
 import Generated.Constants
 import DracoProofs.GeneratedCore
+import DracoProofs.GeneratedTable
 /-
   C08 — rANS symbol entropy coder (`EncodeSymbols` / `DecodeSymbols`,
   src/draco/compression/entropy/{ans.h, rans_symbol_*.h, symbol_encoding.cc, symbol_decoding.cc}).
@@ -403,5 +404,24 @@ theorem source_msb_is_log2 (n : Int) (hn : U32 n) (h0 : n ≠ 0) :
     MostSignificantBit n = (Nat.log2 n.toNat : Int) := MostSignificantBit_eq_model n hn h0
 example : Generated.MostSignificantBit 256 = 8 := by
   rw [source_msb_is_log2 _ (by decide) (by decide)]; decide
+
+open Generated in
+/-- the size-class branch of `RAnsSymbolEncoder::EncodeTable` (the statements `int num_extra_bytes = 0; if (prob >= (1 << 6))
+    { … return false; … }` of the loop body, cut out of the translated method by AST position): `return false` exactly for
+    `prob ≥ 2^22`, otherwise 0/1/2 extra bytes for `prob < 2^6`, `< 2^14`, else -/
+theorem source_tableSizeClass_is_model (p : Int) (hp : U32 p) :
+    RAnsSymbolEncoder.EncodeTable_sizeClass p = sizeClass p := EncodeTable_sizeClass_eq_model p hp
+example : Generated.RAnsSymbolEncoder.EncodeTable_sizeClass 16384 = (none, 2) := by
+  rw [source_tableSizeClass_is_model _ (by decide)]; decide
+
+open Generated in
+/-- … and these are the size classes of the model's table encoder: a non-zero entry fails when the class says
+    `return false`, otherwise it is the first byte `(p << 2) | k` followed by `k` extra bytes -/
+theorem table_entry_uses_sizeClass (p : Nat) (ps : List Nat) (hp : p ≠ 0) :
+    encTableGo (p :: ps) 0 =
+      match sizeClass p with
+      | (some _, _) => none
+      | (none, k) => (encTableGo ps 0).map (fun bs => entryBytes p k.toNat ++ bs) := encTableGo_sizeClass p ps hp
+example : encTableGo [16384] 0 = some [2, 0, 1] := by decide
 
 end Draco
